@@ -76,7 +76,7 @@ def judge(chk, cases, a):
 
 def run(chk):
     rng = random.Random(chk.seed)
-    chk.rule = ('rejected inputs: corpus programs damaged by 1-3 token-level mutations, token soup, UTF-8 soup, unterminated literal/comment inserted at every line of multi-line programs, multi-line tokens before the error, nesting 62..70 deep; '
+    chk.rule = ('rejected inputs: corpus programs damaged by 1-3 token-level mutations, token soup, UTF-8 soup, unterminated literal/comment inserted at every line of multi-line programs, multi-line tokens before the error (also with CR LF line ends and the error on the line where the token closes), nesting 62..70 deep; '
                 'entry points parse_source / expression / parse_stmt.  oracle: typed error, path, Display returns, (line, col) is a real position and the unexpected token text is there.  non-trivial: the input is rejected; distinct by text.')
     base = streams.snippet_cases()
     n = 2 if chk.tier == 'quick' else 12
@@ -90,6 +90,18 @@ def run(chk):
             b = rng.choice(bad)
             cases.append(('file', '\n'.join(ls[:i] + [ls[i] + ' ' + b] + ls[i + 1:])))
             cases.append(('file', '\n'.join(ls[:i] + ['var _ = `multi\nline\nraw`; /* multi\nline */ ' + b] + ls[i:])))
+    # the same shapes with CR LF line ends, tabs and non-ASCII text inside the multi-line tokens, and the error on the
+    # very line where a multi-line token closes (the line table is built from the token text)
+    crlf = []
+    for (m, t) in cases[-(len(multi) // (4 if chk.tier == 'quick' else 1) * 8 + 1):]:
+        if m == 'file' and rng.random() < 0.5: crlf.append((m, t.replace('\n', '\r\n')))
+    for nl in ('\n', '\r\n'):
+        for body in ('usage:' + nl + '  tool [flags]', 'é' + nl + nl + '\t世' + nl, nl, 'a' + nl + 'b' + nl + 'c'):
+            for errtok in (')', ']', '}', '#', '"open', 'x y'):
+                crlf.append(('file', 'package main' + nl + nl + 'var usage = `' + body + '` ' + errtok + nl))
+                crlf.append(('file', 'package main' + nl + '/* ' + body + ' */ var x = ' + errtok + nl))
+                crlf.append(('file', 'package main' + nl + 'func f() {' + nl + '\ts := `' + body + '`; t := ' + errtok + nl + '}' + nl))
+    cases += crlf
     # multi-line type parameter lists (backtracking) before an error
     for k in range(1, 6):
         cases.append(('file', 'package p\n' + 'type T[P\nany,\nQ any] int\n' * k + 'var x = )\n'))
